@@ -319,6 +319,12 @@ def search(ctx, suspects, budget):
             first = fc.signature(why)
             shrink = fc.shrink_history if case["kind"] == "history" else fc.shrink_case
             small = shrink(case, lambda c: fc.signature(check_oracle(c)) == first)
+            if small["kind"] == "history" and [st[0] for st in small["steps"]] == ["fit"]:
+                # no history is needed: report the plain single fit
+                single = dict(fc.history_states(small)[0][2])
+                single.pop("history_step", None)
+                if check_oracle(single):
+                    small = fc.shrink_case(single, lambda c: check_oracle(c) is not None)
             why = check_oracle(small) or why
             sig = fc.signature(why)
             if sig in seen:
